@@ -118,6 +118,22 @@ def run_grammar(case):
     rdclass, rdtype, tname = case["rdclass"], case["rdtype"], case["type"]
     flags = set(case["flags"])
     classes = []
+    if "prelude_class" in case:
+        # every case starts from an empty (class, type) -> implementation cache, so that a case is a
+        # pure function of its descriptor (the cache is process-wide state of the library)
+        cache = getattr(dns.rdata, "_rdata_classes", None)
+        if isinstance(cache, dict):
+            cache.clear()
+    if case.get("prelude_class") is not None and case["prelude_class"] != rdclass:
+        # the same type code looked up in another class first (for all (class, type) pairs: what one
+        # pair decodes to must not depend on which other pair was used before it in the process)
+        import dns.exception
+
+        try:
+            dns.rdata.from_wire(case["prelude_class"], rdtype, w, 0, len(w))
+        except dns.exception.DNSException:
+            pass
+        classes.append("other-class-first")
     rd, w1 = _roundtrip(rdclass, rdtype, w, None, flags, tname)
     if rd is None:
         return {"nontrivial": False, "classes": ["rej:" + tname]}
@@ -209,6 +225,7 @@ def grammar_cases(draw, types):
         ctx["pool"] = draw(G.name_family(2, 4))
     case = draw(R.record(types=types, ctx=ctx, name=tname))
     case["origin"] = None if origin is None else G.hexl(origin)
+    case["prelude_class"] = draw(st.sampled_from([None, None, None, None, None, 3, 4, 1, 0xFE00]))
     return case
 
 
@@ -321,7 +338,7 @@ def arbitrary_cases(draw):
 def parts(tier):
     per_type = {"quick": 40, "thorough": 400}[tier]
     req = {("acc:" + t): per_type for t in R.ALL_TYPES}
-    req.update({"with-origin": 100, "relativized-names": 20, "relativity-checked": 200, "normalizing": 20})
+    req.update({"with-origin": 100, "relativized-names": 20, "relativity-checked": 200, "other-class-first": 1000, "normalizing": 20})
     n_types = len(R.ALL_TYPES)
     return [
         Part("grammar", run_grammar, strategy=grammar_cases(R.ALL_TYPES),
